@@ -160,24 +160,15 @@ Qed.
    unselected branch of a switch of a later-registered dimension aborted loading *)
 Theorem C03_orig_refuted_empty_map :
   exists dims t, WF dims None t /\ load_orig dims t <> Some (load_spec dims t).
-Proof.
-  exists dims12, witness_a. destruct orig_refuted_a as [W [S O]]. split; [exact W|].
-  rewrite S, O. discriminate.
-Qed.
+Proof. exact orig_refuted_empty_map. Qed.
 
 Theorem C03_orig_refuted_nested_raw_map :
   exists dims t, WF dims None t /\ load_orig dims t <> Some (load_spec dims t).
-Proof.
-  exists dims12, witness_b. destruct orig_refuted_b as [W [S O]]. split; [exact W|].
-  rewrite S, O. discriminate.
-Qed.
+Proof. exact orig_refuted_nested_raw_map. Qed.
 
 Theorem C03_orig_refuted_unselected_branch :
   exists dims t, WF dims None t /\ load_orig dims t <> Some (load_spec dims t).
-Proof.
-  exists dims12, witness_c. destruct orig_refuted_c as [W [S O]]. split; [exact W|].
-  rewrite S, O. discriminate.
-Qed.
+Proof. exact orig_refuted_unselected_branch. Qed.
 
 Print Assumptions C03_resolve.
 Print Assumptions C03_load.
@@ -200,3 +191,249 @@ Print Assumptions C03_wfb_sound.
 Print Assumptions C03_orig_refuted_empty_map.
 Print Assumptions C03_orig_refuted_nested_raw_map.
 Print Assumptions C03_orig_refuted_unselected_branch.
+
+(* ======================================================================================
+   The relational specification (design_notes/AUDIT-C01-C10.md, finding 6).
+
+   GConfRelSpec.Resolves / Fails are written from the property text with In, exists, forall,
+   d_parse and d_sel only — none of the helpers shared by the model and resolve_spec
+   (classify, nondefault_keys, spec_switch, active_entry, is_sel, parses, find, forallb).
+   On every well-formed document the code's reduceAny computes exactly that relation; here WF
+   is indispensable (distinct keys, distinct parsed values, plain/switch dichotomy): outside WF
+   the relation is not a function, or is empty, while the code still answers.             *)
+From GT Require Import GConfRelSpec GConfRelProofs.
+
+Theorem C03_resolves_iff : forall dims t p r, WF dims p t ->
+  (reduce dims t = Ok r <-> Resolves dims t r).
+Proof. exact rel_reduce_ok. Qed.
+
+Theorem C03_fails_iff : forall dims t p, WF dims p t ->
+  (reduce dims t = Err <-> Fails dims t).
+Proof. exact rel_reduce_err. Qed.
+
+(* the executable specification against the same relation *)
+Theorem C03_spec_resolves_iff : forall dims t p r, WF dims p t ->
+  (resolve_spec dims t = Ok r <-> Resolves dims t r).
+Proof. exact rel_spec_ok. Qed.
+
+Theorem C03_spec_fails_iff : forall dims t p, WF dims p t ->
+  (resolve_spec dims t = Err <-> Fails dims t).
+Proof. exact rel_spec_err. Qed.
+
+(* on well-formed documents the relation is a total function with an exclusive failure case *)
+Theorem C03_resolves_deterministic : forall dims t p r1 r2, WF dims p t ->
+  Resolves dims t r1 -> Resolves dims t r2 -> r1 = r2.
+Proof. exact rel_deterministic. Qed.
+
+Theorem C03_resolves_exclusive : forall dims t p r, WF dims p t ->
+  Resolves dims t r -> Fails dims t -> False.
+Proof. exact rel_exclusive. Qed.
+
+Theorem C03_resolves_total : forall dims t p, WF dims p t ->
+  (exists r, Resolves dims t r) \/ Fails dims t.
+Proof. exact rel_total. Qed.
+
+(* ... and only there: two keys parsing to the selected value give two values; a map mixing
+   dimension values with other keys neither resolves nor fails although reduce answers *)
+Theorem C03_relation_not_function_outside_WF :
+  exists dims t r1 r2, Resolves dims t r1 /\ Resolves dims t r2 /\ r1 <> r2.
+Proof. exact rel_not_function_outside_WF. Qed.
+
+Theorem C03_relation_empty_on_mixed_map :
+  exists dims t, (forall r, ~ Resolves dims t r) /\ ~ Fails dims t /\ reduce dims t <> Err.
+Proof. exact rel_empty_on_mixed. Qed.
+
+(* "a switch of dimension d": switch_of says d is the FIRST registered dimension of which all
+   keys are values.  With pairwise disjoint value names (disjoint_dims) the clause is void —
+   the relation without it (LooseResolves) is the same relation; with a shared value name the
+   loose relation gives two values on a well-formed document, of which the code returns the one
+   of the first-registered dimension *)
+Theorem C03_first_registered_void_when_disjoint : forall dims, disjoint_dims dims ->
+  forall t r, LooseResolves dims t r <-> Resolves dims t r.
+Proof. exact loose_iff_disjoint. Qed.
+
+Theorem C03_loose_reading_ambiguous :
+  exists dims t r1 r2, WF dims None t /\ LooseResolves dims t r1 /\ LooseResolves dims t r2 /\
+                       r1 <> r2 /\ reduce dims t = Ok r1.
+Proof. exact loose_ambiguous. Qed.
+
+(* loading composed with Get: the configuration is THE document t resolves to, and Get at a
+   dotted path returns exactly the value at that path of it (ValueAt: follow the keys through
+   maps; subtree_at: the same as a function) *)
+Theorem C03_load_get : forall dims p t cfg,
+  WF dims p t -> load_model dims t = Ok cfg ->
+  Resolves dims t (Mp cfg) /\
+  forall r, Resolves dims t r ->
+    r = Mp cfg /\
+    forall path, path <> [] -> Forall (fun s => no_dot s = true) path ->
+      get_model cfg (join_dots path) = subtree_at r path /\
+      forall v, get_model cfg (join_dots path) = Some v <-> ValueAt r path v.
+Proof. exact load_get_rel. Qed.
+
+(* the error clause for LOADING: a stuck switch on the selected path, or a root that is not a
+   map before or after resolution (C03_error_iff alone misses the last two) *)
+Theorem C03_load_error_iff : forall dims p t, WF dims p t ->
+  (load_model dims t = Err <->
+   Fails dims t \/ (exists r, Resolves dims t r /\ ~ is_map r) \/ ~ is_map t).
+Proof. exact load_error_rel. Qed.
+
+Theorem C03_load_spec_error_iff : forall dims p t, WF dims p t ->
+  (load_spec dims t = Err <->
+   Fails dims t \/ (exists r, Resolves dims t r /\ ~ is_map r) \/ ~ is_map t).
+Proof. exact load_spec_error_rel. Qed.
+
+(* the decidable domain check is complete: with C03_wfb_sound, wfb decides WF, so the judge's
+   in_domain is not narrower than the quantifier *)
+Theorem C03_wf_wfb_complete : forall dims t p, WF dims p t -> wfb dims p t = true.
+Proof. exact wfb_complete. Qed.
+
+(* non-vacuity.  A two-dimensional document (D1b and D2a selected) and its derivation: plain
+   root; "a" is a D1 switch whose selected entry is a list holding a D2 switch that has no
+   entry for D2a and falls back to default *)
+Definition dimsAB : list dim := [mk_dim T1 1; mk_dim T2 0].
+Definition rel_doc : tree :=
+  Mp [("a", Mp [("D1a", Str "no");
+                ("D1b", Lst [Mp [("D2b", Null); ("default", Str "yes")]])]);
+      ("b", Atom "i:1")].
+
+Example C03_example_resolves :
+  WF dimsAB None rel_doc /\
+  Resolves dimsAB rel_doc (Mp [("a", Lst [Str "yes"]); ("b", Atom "i:1")]).
+Proof.
+  split; [apply wfb_sound; vm_compute; reflexivity|].
+  apply R_plain.
+  - intros k c [H|[H|[]]]; inversion H; subst;
+      (split; [discriminate| intros d [<-|[<-|[]]]; reflexivity]).
+  - constructor; [split; [reflexivity|]| constructor; [split; [reflexivity| constructor]| constructor]].
+    cbn [snd]. apply (R_selected dimsAB _ (mk_dim T1 1) "D1b"
+                        (Lst [Mp [("D2b", Null); ("default", Str "yes")]])).
+    + split; [exists [], [mk_dim T2 0]; split; [reflexivity| intros d' []]|]. split.
+      * exists "D1a", (Str "no"). split; [left; reflexivity| discriminate].
+      * intros k c [H|[H|[]]] _; inversion H; subst; discriminate.
+    + split; [right; left; reflexivity| split; [discriminate| reflexivity]].
+    + constructor. constructor; [|constructor].
+      apply (R_default dimsAB _ (mk_dim T2 0) (Str "yes")).
+      * split; [exists [mk_dim T1 1], []; split; [reflexivity|]|split].
+        -- intros d' [<-|[]]. exists "D2b", Null.
+           split; [left; reflexivity| split; [discriminate| reflexivity]].
+        -- exists "D2b", Null. split; [left; reflexivity| discriminate].
+        -- intros k c [H|[H|[]]] Hk; inversion H; subst; [discriminate| congruence].
+      * intros k c [H|[H|[]]] Hk; inversion H; subst; [discriminate| congruence].
+      * right. left. reflexivity.
+      * constructor.
+Qed.
+
+(* a failing document: below a plain key, in a list, a D1 switch with neither D1b nor default *)
+Example C03_example_fails :
+  WF dimsAB None (Mp [("k", Lst [Mp [("D1a", Null)]])]) /\
+  Fails dimsAB (Mp [("k", Lst [Mp [("D1a", Null)]])]).
+Proof.
+  split; [apply wfb_sound; vm_compute; reflexivity|].
+  apply (F_plain dimsAB _ "k" (Lst [Mp [("D1a", Null)]])).
+  - intros k c [H|[]]; inversion H; subst.
+    split; [discriminate| intros d [<-|[<-|[]]]; reflexivity].
+  - left. reflexivity.
+  - apply (F_lst dimsAB _ (Mp [("D1a", Null)])); [left; reflexivity|].
+    apply (F_none dimsAB _ (mk_dim T1 1)).
+    + split; [exists [], [mk_dim T2 0]; split; [reflexivity| intros d' []]|]. split.
+      * exists "D1a", Null. split; [left; reflexivity| discriminate].
+      * intros k c [H|[]] _; inversion H; subst; discriminate.
+    + intros k c [H|[]] _; inversion H; subst; discriminate.
+    + intros c [H|[]]; discriminate.
+Qed.
+
+(* the root-non-map document: well-formed, resolves (to a scalar), not Fails, not Stuck, and
+   loading fails *)
+Example C03_example_root_non_map :
+  WF dims12 None (Mp [("D1a", Str "x")]) /\
+  Resolves dims12 (Mp [("D1a", Str "x")]) (Str "x") /\ ~ is_map (Str "x") /\
+  load_model dims12 (Mp [("D1a", Str "x")]) = Err /\
+  ~ Fails dims12 (Mp [("D1a", Str "x")]) /\ ~ Stuck dims12 (Mp [("D1a", Str "x")]).
+Proof. exact root_non_map_witness. Qed.
+
+(* the registered enums of the generator have pairwise disjoint value names *)
+Example C03_example_disjoint : disjoint_dims dimsAB.
+Proof.
+  intros i j di dj k Hi Hj Pi Pj.
+  destruct i as [|[|i]]; destruct j as [|[|j]]; cbn in Hi, Hj;
+    try reflexivity; try (destruct i; discriminate); try (destruct j; discriminate);
+    inversion Hi; inversion Hj; subst; cbn in Pi, Pj; exfalso.
+  - repeat match type of Pi with context [String.eqb k ?s] =>
+             destruct (String.eqb_spec k s); [subst; apply Pj; reflexivity|] end.
+    apply Pi. reflexivity.
+  - repeat match type of Pj with context [String.eqb k ?s] =>
+             destruct (String.eqb_spec k s); [subst; apply Pi; reflexivity|] end.
+    apply Pj. reflexivity.
+Qed.
+
+(* Get through the composed theorem: the value at a.0 does not exist (lists are not walked),
+   the value at "a" is the resolved list *)
+Example C03_example_load_get :
+  exists cfg, load_model dimsAB rel_doc = Ok cfg /\
+              get_model cfg "a" = Some (Lst [Str "yes"]) /\
+              ValueAt (Mp cfg) ["a"] (Lst [Str "yes"]).
+Proof.
+  eexists. split; [vm_compute; reflexivity|]. split; [vm_compute; reflexivity|].
+  eapply VA_step; [left; reflexivity| constructor].
+Qed.
+
+Print Assumptions C03_resolves_iff.
+Print Assumptions C03_fails_iff.
+Print Assumptions C03_spec_resolves_iff.
+Print Assumptions C03_spec_fails_iff.
+Print Assumptions C03_resolves_deterministic.
+Print Assumptions C03_resolves_exclusive.
+Print Assumptions C03_resolves_total.
+Print Assumptions C03_relation_not_function_outside_WF.
+Print Assumptions C03_relation_empty_on_mixed_map.
+Print Assumptions C03_first_registered_void_when_disjoint.
+Print Assumptions C03_loose_reading_ambiguous.
+Print Assumptions C03_load_get.
+Print Assumptions C03_load_error_iff.
+Print Assumptions C03_load_spec_error_iff.
+Print Assumptions C03_wf_wfb_complete.
+
+(* ------------------------------------------------------------------ Builder.FromBytes as a whole
+   (GConfLoadModel.from_bytes_model is what coq/ties/Tie_C03.v proves the regenerated FromBytes to
+   be): the root map is classified like any other map, the result must be a map, the Config records
+   the value of every registered dimension.                                                      *)
+From GT Require Import GConfGenPrims GConfLoadModel GConfLoadProofs.
+
+Theorem C03_root_switch : forall dims kv d,
+  classify dims kv = Some d ->
+  load_model dims (Mp kv) =
+  match active_entry d kv with
+  | Some c => match reduce dims c with Ok (Mp r) => Ok r | _ => Err end
+  | None => Err
+  end.
+Proof. exact load_root_switch. Qed.
+
+Theorem C03_root_plain : forall dims kv,
+  classify dims kv = None -> load_model dims (Mp kv) = seq_kv (rmap (reduce dims) kv).
+Proof. exact load_root_plain. Qed.
+
+Theorem C03_from_bytes_ok_iff : forall (ybytes : Type) (yum : ybytes -> gomap -> gomap * bool)
+    (pte : tree -> tree * bool) dims b cfg,
+  from_bytes_model yum pte dims b = (cfg, false) <->
+  exists data kv r, yum b map_empty = (data, false) /\ load_model dims (Mp data) = Ok kv /\
+                    pte (Mp kv) = (r, false) /\ cfg = mk_config (dimension_values dims) (fst (as_map r)).
+Proof. exact from_bytes_ok_iff. Qed.
+
+(* GetDimension returns the value the resolution compared the switch keys with *)
+Theorem C03_get_dimension : forall dims d v, In (Some d, v) (dimension_values dims) -> v = d_sel d.
+Proof. exact dimension_values_sel. Qed.
+
+Theorem C03_get_dimension_total : forall dims d, In d dims -> In (Some d, d_sel d) (dimension_values dims).
+Proof. exact dimension_values_all. Qed.
+
+(* a root switch: `D1a: {k: v}` / `default: {k: w}` under D1 = D1a loads as {k: v} *)
+Example C03_example_root_switch :
+  load_model dims12 (Mp [("D1a", Mp [("k", Str "v")]); ("default", Mp [("k", Str "w")])]) = Ok [("k", Str "v")]
+  /\ classify dims12 [("D1a", Mp [("k", Str "v")]); ("default", Mp [("k", Str "w")])] = Some (mk_dim T1 0).
+Proof. split; vm_compute; reflexivity. Qed.
+
+Print Assumptions C03_root_switch.
+Print Assumptions C03_root_plain.
+Print Assumptions C03_from_bytes_ok_iff.
+Print Assumptions C03_get_dimension.
+Print Assumptions C03_get_dimension_total.
